@@ -6,7 +6,7 @@
 * every construct the engine does not model raises Unsupported -> the check reports UNDECIDED (exit 2).
 """
 from __future__ import annotations
-import ast, math
+import ast, math, os, sys
 import z3
 from .values import *
 from . import values as _v
@@ -110,7 +110,7 @@ class Exec:
     # ------------------------------------------------------------------ solver helpers
     def feasible(self, pc):
         self.nfeas += 1
-        so = z3.Solver(); so.set('timeout', 10000)
+        so = z3.Solver(); so.set('timeout', self.opts.get('feas_timeout_ms', 10000))      # unknown counts as feasible (sound)
         so.add(PC.of(pc).term())
         if self.S.facts: so.add(*self.S.facts)
         return so.check() != z3.unsat
@@ -209,6 +209,10 @@ class Exec:
                     if z3.is_false(cond): continue
                     q2 = q.fork(None if z3.is_true(cond) else cond)
                     if not z3.is_true(cond) and not self.feasible(q2.pc): continue
+                    # narrowing: variables tested by the condition lose the alternatives the branch excludes
+                    for nm in {x.id for x in ast.walk(st.test) if isinstance(x, ast.Name)}:
+                        v = q2.env.get(nm)
+                        if isinstance(v, VAny) and len(v.alts) > 1: q2.env[nm] = self.narrow(q2, v)
                     outs += self.block(body, q2, fr)
             return outs
         if isinstance(st, ast.For): return self.forloop(st, p, fr)
@@ -303,6 +307,10 @@ class Exec:
             p.env[t.id] = v; return [(p, None)]
         if isinstance(t, (ast.Tuple, ast.List)):
             n = len(t.elts)
+            if isinstance(v, VAny):
+                outs = []
+                for q, d in self.split_opt(p, v): outs += self.bind(t, d, q, fr)
+                return outs
             if isinstance(v, VOpt):
                 outs = []
                 q1 = p.fork(v.isnone)
@@ -379,9 +387,11 @@ class Exec:
     # ------------------------------------------------------------------ loops
     def forloop(self, st, p, fr):
         outs = []
-        for q, it in self.ev(st.iter, p, fr):
-            if isinstance(it, Raised): outs.append(('exc', q, it.exc)); continue
-            outs += self.forloop_on(st, q, it, fr)
+        for q0, it0 in self.ev(st.iter, p, fr):
+            for q, it in (self.split_opt(q0, it0) if isinstance(it0, (VAny, VOpt)) else [(q0, it0)]):
+                if isinstance(it, Raised): outs.append(('exc', q, it.exc)); continue
+                if isinstance(it, (VNone, VInt, VReal, VBool, VSpec)): outs.append(('exc', q, VExc('TypeError', where=st.lineno))); continue
+                outs += self.forloop_on(st, q, it, fr)
         return outs
 
     def forloop_on(self, st, p, it, fr):
@@ -513,6 +523,15 @@ class Exec:
     def new_list(self, p, items):
         return VRef(p.alloc({'items': list(items)}), 'list')
 
+    def new_symlist(self, p, name='lst', min_len=0, length=None):
+        """a list of str whose length is symbolic (token lists, split results); elements are ELEM(code, i)"""
+        L = length if length is not None else fresh(I, name + '_len')
+        if length is None: p.pc = p.pc + [L >= min_len]
+        return VRef(p.alloc({'len': L, 'elem': 'str', 'code': fresh(I, name + '_id')}), 'list')
+
+    def symlist_elem(self, cell, i):
+        return VStr(code=self.S.app('ELEM', [cell['code'], i if z3.is_expr(i) else z3.IntVal(i)], I))
+
     def new_dict(self, p, mp):
         return VRef(p.alloc({'map': dict(mp)}), 'dict')
 
@@ -525,6 +544,8 @@ class Exec:
         if isinstance(v, VReal): return v.t != 0
         if isinstance(v, VTuple): return z3.BoolVal(len(v.xs) > 0)
         if isinstance(v, VOpt): return z3.And(z3.Not(v.isnone), self.truth(v.inner, p))
+        if isinstance(v, VAny): return z3.Or([z3.And(c, self.truth(x, p)) for c, x in v.alts])
+        if isinstance(v, VSpec): return z3.BoolVal(True)
         if isinstance(v, VStr): return self.S.str_nonempty(v)
         if isinstance(v, VRef):
             if v.cls == 'list':
@@ -625,8 +646,65 @@ class Exec:
             outs = nxt
         return outs
 
+    def lift_alts(self, p, vals, fn):
+        """apply fn(path, definite values) over the alternatives of the VAny members of `vals` WITHOUT splitting the path
+        for alternatives on which fn yields one non-raising result on the same path: those are merged into one VAny
+        result; the others (raising / forking) get their own paths.  -> list[(path, value|Raised)]"""
+        idx = [i for i, v in enumerate(vals) if isinstance(v, VAny)]
+        if not idx: return fn(p, vals)
+        combos = [(z3.BoolVal(True), list(vals))]
+        for i in idx:
+            combos = [(z3.simplify(z3.And(c, ca)), vs[:i] + [va] + vs[i + 1:]) for c, vs in combos for ca, va in vals[i].alts]
+        merged = []; outs = []
+        for cond, vs in combos:
+            if z3.is_false(cond): continue
+            if len(combos) > 2 and not self.feasible(p.pc + [cond]): continue      # alternative already excluded on this path
+            if any(isinstance(x, VAny) for x in vs):       # nested alternatives: resolve by splitting
+                q = p.fork(cond)
+                if self.feasible(q.pc): outs += self.lift_alts(q, vs, fn)
+                continue
+            res = fn(p, vs)
+            # every non-raising result whose path only ADDS conditions to p (same heap) is merged under those conditions;
+            # raising results keep their own path
+            ok = True; pieces = []; raising = []
+            for q1, r in res:
+                extra = _pc_suffix(p.pc, q1.pc)
+                if extra is None or (q1.heap is not p.heap and q1.heap != p.heap): ok = False; break
+                if isinstance(r, Raised): raising.append((extra, r))
+                else: pieces.append((extra, r))
+            if ok:
+                for extra, r in pieces:
+                    c2 = z3.And([cond] + extra) if extra else cond
+                    if isinstance(r, VAny): merged += [(z3.And(c2, c3), v3) for c3, v3 in r.alts]
+                    else: merged.append((c2, r))
+                for extra, r in raising:
+                    q = p.fork(z3.And([cond] + extra) if extra else cond)
+                    if self.feasible(q.pc): outs.append((q, r))
+            else:
+                q = p.fork(cond)
+                if self.feasible(q.pc): outs += fn(q, vs)
+        if merged:
+            q = p.fork(z3.Or([c for c, _ in merged]))
+            if self.feasible(q.pc):
+                merged = coalesce(merged)
+                outs.append((q, merged[0][1] if len(merged) == 1 else VAny(merged)))
+        return outs
+
+    def narrow(self, p, v):
+        """drop the alternatives of a VAny that the path condition excludes"""
+        if not isinstance(v, VAny): return v
+        keep = coalesce([(c, x) for c, x in v.alts if self.feasible(p.pc + [c])])
+        if len(keep) == 1: return keep[0][1]
+        return VAny(keep) if keep else v
+
     def split_opt(self, p, v):
-        """resolve VOpt into definite alternatives"""
+        """resolve VOpt / VAny into definite alternatives (path split)"""
+        if isinstance(v, VAny):
+            outs = []
+            for cond, val in v.alts:
+                q = p.fork(cond)
+                if self.feasible(q.pc): outs += self.split_opt(q, val)
+            return outs
         if not isinstance(v, VOpt): return [(p, v)]
         outs = []
         q1 = p.fork(v.isnone)
@@ -680,6 +758,8 @@ class Exec:
                     if z3.is_true(cond) or self.feasible(q2.pc): outs += self.ev(br, q2, fr)
             return outs
         if isinstance(e, ast.BoolOp):
+            merged = self.boolop_merged(e, p, fr)
+            if merged is not None: return merged
             def go(vals, q):
                 outs = []
                 for q1, v in self.ev(vals[0], q, fr):
@@ -735,17 +815,88 @@ class Exec:
             raise Unsupported('bare slice')
         raise Unsupported(f'expression {type(e).__name__} at line {getattr(e, "lineno", "?")}')
 
+    def boolop_merged(self, e, p, fr):
+        """`a and b` / `a or b` WITHOUT a path split when every operand evaluates, under the assumption that the
+        previous ones did not short-circuit, to a single boolean that cannot raise: the value is the conjunction /
+        disjunction itself.  Returns None when that shape does not apply (the caller then splits paths)."""
+        if not all(isinstance(v, (ast.Compare, ast.Call, ast.Name, ast.UnaryOp, ast.BoolOp)) for v in e.values): return None
+        acc = []; q = p
+        mark = len(self.obls)
+        for i, ve in enumerate(e.values):
+            res = self.ev(ve, q, fr)
+            if len(res) != 1 or isinstance(res[0][1], Raised) or not isinstance(res[0][1], VBool):
+                if os.environ.get('DBG_MERGE'): print('MERGEFAIL', i, ast.unparse(ve)[:40], [(type(v).__name__, getattr(getattr(v,'exc',None),'typ',None)) for _, v in res][:4], file=sys.stderr)
+                del self.obls[mark:]
+                return None
+            q1, v = res[0]
+            # any condition the evaluation added must be implied by the assumptions (it is then no restriction)
+            extra = list(q1.pc)[len(q.pc):] if len(q1.pc) >= len(q.pc) else None
+            if extra is None: del self.obls[mark:]; return None
+            if extra and self.feasible(q.pc + [z3.Not(z3.And(extra))]):
+                del self.obls[mark:]; return None
+            if q1.heap is not q.heap and q1.heap != q.heap: del self.obls[mark:]; return None
+            acc.append(v.t)
+            if i + 1 < len(e.values):
+                cont = z3.simplify(v.t if isinstance(e.op, ast.And) else z3.Not(v.t))
+                if z3.is_false(cont): break             # short-circuits here on every path: the rest is never evaluated
+                q = Path(q.pc + [cont], q.env, q.heap, q.trace)
+                if not z3.is_true(cont) and not self.feasible(q.pc): break
+        t = z3.And(acc) if isinstance(e.op, ast.And) else z3.Or(acc)
+        return [(p, VBool(t))]
+
     def ev_comp(self, e, p, fr):
         if len(e.generators) != 1 or e.generators[0].is_async: raise Unsupported('comprehension shape')
         g = e.generators[0]
         outs = []
+        its = []
         for q, it in self.ev(g.iter, p, fr):
+            if isinstance(it, (VAny, VOpt)): its += self.split_opt(q, it)
+            else: its.append((q, it))
+        for q, it in its:
             if isinstance(it, Raised): outs.append((q, it)); continue
+            if isinstance(it, (VNone, VInt, VReal, VBool, VSpec)):
+                outs.append((q, Raised(VExc('TypeError', where=e.lineno)))); continue
             if isinstance(it, VUnk):
                 outs.append((q, VUnk('comp')))
                 if self.opts.get('unk_raises', True): outs.append((q.fork(), Raised(VExc('Exception?', where=e.lineno))))
                 continue
             items = self.items_of(it, q)
+            symbolic = (isinstance(it, VRef) and it.cls == 'list' and items is None and 'len' in q.cell(it.oid)) or (isinstance(it, VStr) and it.lit is None)
+            if isinstance(it, VStr) and it.lit is not None: items = [VStr(lit=ch) for ch in it.lit]
+            if symbolic:
+                # one symbolic element stands for every element: the element expression and the filters are evaluated once
+                # (collecting what they can raise); the result is a symbolic list / generator
+                saved = {n.id: q.env.get(n.id) for n in ast.walk(g.target) if isinstance(n, ast.Name)}
+                L = q.cell(it.oid)['len'] if isinstance(it, VRef) else self.S.str_len(it)
+                q1 = q.fork()
+                for q2, r in self.bind(g.target, VStr(code=fresh(I, 'elem')), q1, fr):
+                    if isinstance(r, Raised): outs.append((q2, r)); continue
+                    live = [q2]
+                    for c in g.ifs:
+                        nl = []
+                        for q3 in live:
+                            for q4, t in self.ev_truth(c, q3, fr):
+                                if isinstance(t, Raised): outs.append((q4, t))
+                                else: nl.append(q4)
+                        live = nl
+                    done = False
+                    for q3 in live:
+                        for q4, v in self.ev(e.elt, q3, fr):
+                            if isinstance(v, Raised): outs.append((q4, v)); continue
+                            if done: continue
+                            done = True
+                            q5 = Path(q.pc, dict(q.env), dict(q4.heap), q.trace)
+                            self.flush(q5, 0) if False else None
+                            for n, old in saved.items():
+                                if old is None: q5.env.pop(n, None)
+                                else: q5.env[n] = old
+                            if isinstance(e, ast.ListComp):
+                                if g.ifs:
+                                    L2 = fresh(I, 'filtered_len'); q5.pc = q5.pc + [L2 >= 0, L2 <= L]
+                                    outs.append((q5, self.new_symlist(q5, 'comp', length=L2)))
+                                else: outs.append((q5, self.new_symlist(q5, 'comp', length=L)))
+                            else: outs.append((q5, VGen(None)))
+                continue
             if items is None: raise Unsupported(f'comprehension over {it!r} at line {e.lineno}')
             saved = {n.id: q.env.get(n.id) for n in ast.walk(g.target) if isinstance(n, ast.Name)}
             live = [(q.fork(), [])]
@@ -792,6 +943,17 @@ class Exec:
                 for q2, t in self.compare(e.ops[i], left, right, q1, e):
                     if isinstance(t, Raised): outs.append((q2, t)); continue
                     if i + 1 < len(e.ops):
+                        # merged form: if the rest of the chain, evaluated under the assumption that this link holds,
+                        # is a single boolean that cannot raise, the chain is the conjunction (no path split)
+                        if i + 2 == len(e.ops) and isinstance(operands[i + 2], (ast.Constant, ast.Name)):
+                            qa = Path(q2.pc + [t], q2.env, q2.heap, q2.trace)
+                            r3 = self.ev(operands[i + 2], qa, fr)
+                            if len(r3) == 1 and not isinstance(r3[0][1], Raised):
+                                r4 = self.compare(e.ops[i + 1], right, r3[0][1], r3[0][0], e)
+                                if len(r4) == 1 and not isinstance(r4[0][1], Raised):
+                                    extra = list(r4[0][0].pc)[len(q2.pc) + 1:]
+                                    if not extra or not self.feasible(qa.pc + [z3.Not(z3.And(extra))]):
+                                        outs.append((q2, VBool(z3.And(acc + [t, r4[0][1]])))); continue
                         # short-circuit: chain stops when a link is false
                         ts = z3.simplify(t)
                         if not z3.is_true(ts):
@@ -810,12 +972,37 @@ class Exec:
     def compare(self, op, a, b, p, node):
         """-> list[(path, z3 Bool | Raised)]"""
         S = self.S
+        if isinstance(a, VAny) or isinstance(b, VAny):
+            # merge the alternatives that do not raise into ONE guarded boolean; split only for those that raise
+            aa = a.alts if isinstance(a, VAny) else [(z3.BoolVal(True), a)]
+            bb = b.alts if isinstance(b, VAny) else [(z3.BoolVal(True), b)]
+            terms = []; ok_conds = []; outs = []
+            for ca, va in aa:
+                for cb, vb in bb:
+                    cond = z3.simplify(z3.And(ca, cb))
+                    if z3.is_false(cond): continue
+                    if isinstance(va, (VOpt, VAny)) or isinstance(vb, (VOpt, VAny)):
+                        q = p.fork(cond)
+                        if self.feasible(q.pc): outs += self.compare(op, va, vb, q, node)
+                        continue
+                    res = self.compare(op, va, vb, p, node)
+                    if len(res) == 1 and res[0][0] is p and not isinstance(res[0][1], Raised):
+                        terms.append(z3.And(cond, res[0][1])); ok_conds.append(cond)
+                    else:
+                        q = p.fork(cond)
+                        if self.feasible(q.pc): outs += self.compare(op, va, vb, q, node)
+            if ok_conds:
+                q = p.fork(z3.Or(ok_conds))
+                if self.feasible(q.pc): outs.append((q, z3.Or(terms)))
+            return outs
         if isinstance(a, VOpt) or isinstance(b, VOpt):
             outs = []
             for q, a1 in self.split_opt(p, a):
                 for q2, b1 in self.split_opt(q, b):
                     outs += self.compare(op, a1, b1, q2, node)
             return outs
+        if isinstance(a, VSpec) or isinstance(b, VSpec):
+            return [(p, self.compare_special(op, a, b, node))]
         if isinstance(op, (ast.Is, ast.IsNot)):
             if isinstance(b, VNone) or isinstance(a, VNone):
                 o = a if isinstance(b, VNone) else b
@@ -862,6 +1049,9 @@ class Exec:
         return [(p, Raised(VExc('TypeError', where=node.lineno)))]
 
     def equal(self, a, b, p):
+        if isinstance(a, VSpec) or isinstance(b, VSpec):
+            if isinstance(a, VSpec) and isinstance(b, VSpec): return z3.BoolVal(a.kind == b.kind and a.kind != 'nan')
+            return z3.BoolVal(False)
         if is_num(a) and is_num(b):
             if isinstance(a, VInt) and isinstance(b, VInt): return a.t == b.t
             if isinstance(a, VBool) and isinstance(b, VBool): return a.t == b.t
@@ -880,6 +1070,37 @@ class Exec:
             return z3.BoolVal(False)
         if isinstance(a, VRef) and isinstance(b, VRef): return z3.BoolVal(a.oid == b.oid)
         return fresh(B, 'eq')
+
+    def compare_special(self, op, a, b, node):
+        """IEEE semantics with a non-finite float operand -> z3 Bool | Raised"""
+        if isinstance(op, (ast.Eq, ast.NotEq)):
+            t = self.equal(a, b, None)
+            return t if isinstance(op, ast.Eq) else z3.Not(t)
+        other = b if isinstance(a, VSpec) else a
+        if not (is_num(other) or isinstance(other, VSpec)):
+            return Raised(VExc('TypeError', where=node.lineno))
+        ka = a.kind if isinstance(a, VSpec) else 'fin'; kb = b.kind if isinstance(b, VSpec) else 'fin'
+        if 'nan' in (ka, kb): return z3.BoolVal(False)
+        rank = {'-inf': -1, 'fin': 0, 'inf': 1}
+        ra, rb = rank[ka], rank[kb]
+        if ra == rb:         # both +inf or both -inf
+            return z3.BoolVal(isinstance(op, (ast.LtE, ast.GtE)))
+        return z3.BoolVal({ast.Lt: ra < rb, ast.LtE: ra <= rb, ast.Gt: ra > rb, ast.GtE: ra >= rb}[type(op)])
+
+    def binop_special(self, op, a, b, p, node):
+        """arithmetic with a non-finite float operand: nan is absorbing; with an infinity the result is over-approximated
+        by {nan, +inf, -inf, some finite float} (a superset of IEEE behaviour - sound for 'raises only' obligations);
+        division / modulo by a zero raise ZeroDivisionError as for finite floats"""
+        outs = []
+        if isinstance(op, (ast.Div, ast.FloorDiv, ast.Mod)) and is_num(b):
+            qz = p.fork(num(b) == 0)
+            if self.feasible(qz.pc): outs.append((qz, Raised(VExc('ZeroDivisionError', where=node.lineno))))
+            p = p.fork(num(b) != 0)
+        ka = a.kind if isinstance(a, VSpec) else 'fin'; kb = b.kind if isinstance(b, VSpec) else 'fin'
+        if 'nan' in (ka, kb): return outs + [(p, VSpec('nan'))]
+        if isinstance(op, ast.Mod) and ka != 'fin': return outs + [(p, VSpec('nan'))]       # inf % y is nan
+        k = fresh(I, 'ieee')      # which of the over-approximated outcomes: one value with alternatives, no path split
+        return outs + [(p, VAny([(k == 0, VSpec('nan')), (k == 1, VSpec('inf')), (k == 2, VSpec('-inf')), (z3.Or(k < 0, k > 2), VReal(fresh(R, 'finite')))]))]
 
     def contains(self, a, b, p, node):
         S = self.S
@@ -902,12 +1123,16 @@ class Exec:
 
     # ------------------------------------------------------------------ arithmetic
     def binop(self, op, a, b, p, node):
+        if isinstance(a, VAny) or isinstance(b, VAny):
+            return self.lift_alts(p, [a, b], lambda q, vs: self.binop(op, vs[0], vs[1], q, node))
         if isinstance(a, VOpt) or isinstance(b, VOpt):
             outs = []
             for q, a1 in self.split_opt(p, a):
                 for q2, b1 in self.split_opt(q, b):
                     outs += self.binop(op, a1, b1, q2, node)
             return outs
+        if (isinstance(a, VSpec) and (is_num(b) or isinstance(b, VSpec))) or (isinstance(b, VSpec) and is_num(a)):
+            return self.binop_special(op, a, b, p, node)
         if isinstance(a, VUnk) or isinstance(b, VUnk):
             outs = [(p, VUnk('arith'))]
             if self.opts.get('unk_raises', True): outs.append((p.fork(), Raised(VExc('Exception?', where=node.lineno))))
@@ -936,6 +1161,7 @@ class Exec:
                 return [(p, VInt(self.S.opaque_int('mul', [iv(a), iv(b)])))]
             x, y = num(a), num(b)
             if _is_numeral(z3.simplify(x)) or _is_numeral(z3.simplify(y)): return [(p, VReal(x * y))]
+            if self.opts.get('exact_mul'): return [(p, VReal(x * y))]       # non-linear real arithmetic decided by z3 (small lemmas only)
             return [(p, VReal(self.S.opaque_real('mul', [x, y], commutative=True)))]
         if isinstance(op, ast.Div):
             x, y = num(a), num(b)
@@ -968,12 +1194,14 @@ class Exec:
                     outs.append((qn, VInt(self.S.opaque_int('fdiv' if isinstance(op, ast.FloorDiv) else 'mod', [iv(a), y]))))
                 return outs
             x, y = num(a), num(b)
+            ys = z3.simplify(y)
+            r = self.S.opaque_real('fdiv' if isinstance(op, ast.FloorDiv) else 'mod', [x, y])
+            if isinstance(op, ast.Mod): self.S.lfact(None, z3.Implies(y > 0, z3.And(r >= 0, r < y)))
+            if _is_numeral(ys) and ys.as_fraction() != 0:
+                return [(p, VReal(r))]
             qz = p.fork(y == 0)
             if self.feasible(qz.pc): outs.append((qz, Raised(VExc('ZeroDivisionError', where=node.lineno))))
             qn = p.fork(y != 0)
-            r = self.S.opaque_real('fdiv' if isinstance(op, ast.FloorDiv) else 'mod', [x, y])
-            if isinstance(op, ast.Mod):
-                qn.pc = qn.pc + [z3.Implies(y > 0, z3.And(r >= 0, r < y))]
             outs.append((qn, VReal(r)))
             return outs
         if isinstance(op, ast.Pow):
@@ -1037,6 +1265,16 @@ class Exec:
             if cell.get('open'):
                 return [(p, VUnk('dictval')), (p.fork(), Raised(VExc('KeyError', where=node.lineno)))]
             return [(p, Raised(VExc('KeyError', where=node.lineno)))]
+        if isinstance(base, VRef) and base.cls == 'list' and p.cell(base.oid).get('items') is None and 'code' in p.cell(base.oid):
+            cell = p.cell(base.oid); i = _const_int(ix)
+            if i is None: raise Unsupported(f'symbolic index into a symbolic list at line {node.lineno}')
+            outs = []
+            bad = cell['len'] <= i if i >= 0 else cell['len'] < -i
+            qb = p.fork(bad)
+            if self.feasible(qb.pc): outs.append((qb, Raised(VExc('IndexError', where=node.lineno))))
+            qg = p.fork(z3.Not(bad))
+            if self.feasible(qg.pc): outs.append((qg, self.symlist_elem(cell, i if i >= 0 else cell['len'] + i)))
+            return outs
         items = self.items_of(base, p)
         if items is not None:
             i = _const_int(ix)
@@ -1076,7 +1314,7 @@ class Exec:
                 # the contract's object shape does not mention this field: its value is unknown (not an error)
                 return [(p, VUnk(f'undeclared field {attr}'))]
             return [(p, Raised(VExc('AttributeError', where=node.lineno)))]
-        if isinstance(o, (VRef, VStr, VTuple)):
+        if isinstance(o, (VRef, VStr, VTuple, VGlobal)):
             return [(p, VFunc(builtin=f'<method>.{attr}', bound_self=o))]
         if isinstance(o, VExc) and attr == 'args': return [(p, VUnk('exc.args'))]
         if isinstance(o, VUnk): return [(p, VUnk(f'attr.{attr}'))]
@@ -1102,6 +1340,17 @@ class Exec:
                     kwargs = {k.arg: v for k, v in zip(e.keywords, kws)}
                     if len(self.S.pending) > mark:
                         q2 = q2.fork(); self.flush(q2, mark)      # facts about the argument values must be visible to the callee's pre-obligation
+                    no_split = isinstance(f, (VFunc, VClass)) and getattr(f, 'builtin', None) is not None
+                    if not no_split and (any(isinstance(a, VAny) for a in args) or any(isinstance(a, VAny) for a in kwargs.values())):
+                        cases = [(q2, list(args), dict(kwargs))]
+                        for i, a in enumerate(args):
+                            if isinstance(a, VAny):
+                                cases = [(q3, a2[:i] + [d] + a2[i + 1:], k2) for q0, a2, k2 in cases for q3, d in self.split_opt(q0, a)]
+                        for kname, a in kwargs.items():
+                            if isinstance(a, VAny):
+                                cases = [(q3, a2, dict(k2, **{kname: d})) for q0, a2, k2 in cases for q3, d in self.split_opt(q0, a)]
+                        for q3, a2, k2 in cases: outs += self.call_function(f, a2, k2, q3, e, fr)
+                        continue
                     outs += self.call_function(f, args, kwargs, q2, e, fr)
         return outs
 
@@ -1136,6 +1385,10 @@ class Exec:
             return self.opaque_call(f.qual, p, node)
         # closure
         if f.node is not None:
+            cq = f'{fr.qual}.<locals>.{f.node.name}'
+            cc = self.reg.get(cq)
+            if cc is not None and not self.is_current(cc):
+                return self.apply_contract(cc, list(args), kwargs, p, node, fr)
             if self.opts.get('inline_closures', False) or getattr(fr.contract, 'inline_closures', False):
                 return self.inline(f.node, f.mod, f'{fr.qual}.<locals>.{f.node.name}', list(args), kwargs, p, node, Closure(f.closure, fr.closure))
             return self.opaque_call(f'closure {f.node.name}', p, node)
@@ -1190,9 +1443,27 @@ class Exec:
                 elif k == 'fall': outs.append((q2, NONE))
                 elif k == 'exc': outs.append((q2, Raised(v)))
                 else: raise Unsupported(f'{k} escaping function {qual}')
-            return outs
+            return self.merge_returns(p, caller_env, outs)
         finally:
             self.depth -= 1
+
+    def merge_returns(self, p, caller_env, outs):
+        """path merging at the return of an inlined function: the normal returns that only ADD conditions to the caller's
+        path (same heap) become ONE path whose value is a VAny guarded by those conditions"""
+        rets = [(q, v) for q, v in outs if not isinstance(v, Raised)]
+        if len(rets) < 2: return outs
+        pieces = []
+        for q, v in rets:
+            extra = _pc_suffix(p.pc, q.pc)
+            if extra is None or (q.heap is not p.heap and q.heap != p.heap) or isinstance(v, (VRef, VFunc)): return outs
+            pieces.append((z3.And(extra) if extra else z3.BoolVal(True), v))
+        alts = []
+        for c, v in pieces:
+            if isinstance(v, VAny): alts += [(z3.And(c, c2), v2) for c2, v2 in v.alts]
+            else: alts.append((c, v))
+        qm = Path(p.pc + [z3.Or([c for c, _ in pieces])], dict(caller_env), p.heap, p.trace)
+        alts = coalesce(alts)
+        return [(qm, alts[0][1] if len(alts) == 1 else VAny(alts))] + [(q, v) for q, v in outs if isinstance(v, Raised)]
 
     def instantiate(self, cqual, args, kwargs, p, node, fr):
         mod, cname = cqual.split(':')
@@ -1225,7 +1496,10 @@ class Exec:
         for q, e2 in cases:
             ns = Namespace(e2, q)
             site = f'{c.short}@L{getattr(node, "lineno", 0)}'
-            pre = c.pre(self.S, ns) if c.pre else None
+            try:
+                pre = c.pre(self.S, ns) if c.pre else None
+            except (AssertionError, AttributeError, TypeError, IndexError):
+                pre = z3.BoolVal(False)       # the arguments do not even have the shape the callee's contract speaks about
             if pre is not None:
                 self.oblige(f'call[{c.short}]/pre', q.pc, pre, kind='pre', site=site)
                 q = q.fork(pre)
@@ -1286,6 +1560,52 @@ class Frame:
         if self.contract is None: return None
         ordn = [id(n) for n in self._loops[hdr]].index(id(st))
         return self.contract.loop(hdr, ordn)
+
+
+def coalesce(alts):
+    """alternatives of the same Python type are joined into ONE alternative whose value is an if-then-else term
+    (exact: no information is lost); keeps later products over alternatives small"""
+    groups = {}; order = []
+    for c, v in alts:
+        if isinstance(v, VReal): k = 'real'
+        elif isinstance(v, VInt): k = 'int'
+        elif isinstance(v, VBool): k = 'bool'
+        elif isinstance(v, VSpec): k = 'spec:' + v.kind
+        elif isinstance(v, VNone): k = 'none'
+        elif isinstance(v, VStr): k = 'str'          # literal / constructor knowledge is dropped when strings are joined (more general: sound)
+        else: k = ('other', id(v))
+        if k not in groups: groups[k] = []; order.append(k)
+        groups[k].append((c, v))
+    out = []
+    for k in order:
+        g = groups[k]
+        if len(g) == 1 or not isinstance(k, str): out += g; continue
+        cond = z3.Or([c for c, _ in g])
+        if k in ('real', 'int', 'bool'):
+            t = g[-1][1].t
+            for c, v in reversed(g[:-1]): t = z3.If(c, v.t, t)
+            out.append((cond, type(g[0][1])(t)))
+        elif k == 'str':
+            t = g[-1][1].code
+            for c, v in reversed(g[:-1]): t = z3.If(c, v.code, t)
+            out.append((cond, VStr(code=t)))
+        else: out.append((cond, g[0][1]))
+    return out
+
+
+def mk_any(alts):
+    alts = coalesce(alts)
+    return alts[0][1] if len(alts) == 1 and z3.is_true(z3.simplify(alts[0][0])) else VAny(alts)
+
+
+def _pc_suffix(base, pc):
+    """conditions that `pc` adds to `base` (both persistent lists), or None if pc does not extend base"""
+    extra = []; c = pc
+    while c is not base:
+        if c is None or c.cond is None:
+            return None if base.cond is not None or base.n != 0 else list(reversed(extra))
+        extra.append(c.cond); c = c.parent
+    return list(reversed(extra))
 
 
 def _alts(x):
